@@ -1,0 +1,25 @@
+//! Probes used by the deterministic-simulation harness.
+//!
+//! Compiled only with `--cfg wtransport_verif`; none of this exists in a normal build.
+
+use std::cell::Cell;
+
+thread_local! {
+    static TORN_READS: Cell<u64> = const { Cell::new(0) };
+}
+
+/// Number of asynchronous read futures dropped on this thread after having
+/// consumed part (but not all) of the bytes they were reading.
+pub fn torn_reads() -> u64 {
+    TORN_READS.with(|c| c.get())
+}
+
+#[inline]
+pub(crate) fn torn_read() {
+    TORN_READS.with(|c| c.set(c.get() + 1));
+}
+
+/// Resets the probe counters of this thread.
+pub fn reset() {
+    TORN_READS.with(|c| c.set(0));
+}
